@@ -211,3 +211,35 @@ def uninitialised_fields(f: Func):
                 out.append((fld, n))
                 break
     return out
+
+
+def stride_conflicts(f: Func):
+    """[(table name, [sets of names multiplied in its index computations], node)]: a list addressed as `t[a * s + b]`
+    (directly or through `base = a * s`) must use one stride: if no name is common to all the products that index
+    the same table, two sites lay the table out differently"""
+    defs: dict[str, list] = {}
+    for n in f.own_nodes():
+        if isinstance(n, ast.Assign) and len(n.targets) == 1 and isinstance(n.targets[0], ast.Name):
+            defs.setdefault(n.targets[0].id, []).append(n.value)
+
+    def mults(e):
+        return [frozenset(y.id for y in ast.walk(x) if isinstance(y, ast.Name)) for x in ast.walk(e) if isinstance(x, ast.BinOp) and isinstance(x.op, ast.Mult)]
+
+    uses: dict[str, list] = {}
+    for n in f.own_nodes():
+        if isinstance(n, ast.Subscript) and isinstance(n.value, ast.Name) and not isinstance(n.slice, (ast.Name, ast.Constant, ast.Slice, ast.Tuple)):
+            for y in ast.walk(n.slice):
+                if isinstance(y, ast.Name) and y.id in defs:
+                    for d in defs[y.id]:
+                        m = mults(d)
+                        if len(m) == 1:
+                            uses.setdefault(n.value.id, []).append((m[0], n))
+            ms = mults(n.slice)
+            if len(ms) == 1:
+                uses.setdefault(n.value.id, []).append((ms[0], n))
+    out = []
+    for t, us in uses.items():
+        sets = [u[0] for u in us if u[0]]
+        if len(sets) >= 2 and not frozenset.intersection(*sets):
+            out.append((t, [sorted(x) for x in dict.fromkeys(sets)], us[0][1]))
+    return out
